@@ -25,7 +25,7 @@ pub struct Case {
 
 fn base_scenario(prog: &Program, leader: usize, out_mask: &[bool], inputs: &[u64], strategy: Strategy, comp_id: u128) -> Scenario {
     let pols = (0..prog.parties).map(|p| server::policy_for(prog, comp_id, p, leader, inputs[p], out_mask[p])).collect();
-    Scenario { policies: vec![pols], concurrency: 2, strategy, gate_msgs: true, gate_replies: false, fail_rpc: None, injections: vec![], skip_schedule: vec![], max_steps: 20_000, fail_outputs: false, alt_policies: vec![] }
+    Scenario { policies: vec![pols], concurrency: 2, strategy, gate_msgs: true, gate_replies: false, fail_rpc: None, injections: vec![], skip_schedule: vec![], max_steps: 20_000, fail_outputs: false, alt_policies: vec![], hold_msgs_of_after_cancel: None }
 }
 
 /// number of idle points of the undisturbed run (for "inject at every point k")
@@ -214,6 +214,19 @@ pub fn cases_c15(tier: &str, seed: u64) -> Vec<Case> {
             for gate_msgs in [true, false] {
                 let mut base = base_scenario(prog, leader, &mask, &inputs, Strategy::Script(vec![]), 0x15000 + pi as u128);
                 base.gate_msgs = gate_msgs;
+                // cancel while the party's peers have become unresponsive (its MPC messages are never delivered
+                // after the cancel): the permit must still come back
+                if gate_msgs {
+                    let steps0 = pilot_steps(&base);
+                    for k in (4..=steps0).step_by(if thorough { 3 } else { 11 }) {
+                        for party in 0..n {
+                            let mut sc = base.clone();
+                            sc.hold_msgs_of_after_cancel = Some(party);
+                            sc.injections = vec![(When::Step(k), Inject::Cancel { comp: 0, party })];
+                            v.push(Case { prop: "C15", key: format!("{} L{} unresponsive-peers step{} cancel p{}", prog.name, leader, k, party), sc, progs: vec![(*prog).clone()], inputs: vec![inputs.clone()], out_masks: vec![mask.clone()], leaders: vec![leader], mismatch: None, mt: None });
+                        }
+                    }
+                }
                 // cancel while / right after the party's own result is being delivered
                 for party in (0..n).filter(|p| mask[*p]) {
                     for (wname, when) in [("during-output", When::DuringOutput), ("after-output", When::AfterOutput)] {
@@ -598,7 +611,7 @@ pub fn cases_c17(tier: &str, seed: u64) -> Vec<Case> {
         if i % 5 == 4 {
             injections.push((When::Step(rng.random_range(0..30)), Inject::Cancel { comp: rng.random_range(0..batch), party: rng.random_range(0..2) }));
         }
-        let sc = Scenario { policies: pols, concurrency, strategy: Strategy::Random(seed ^ (i as u64).wrapping_mul(0x9e3779b97f4a7c15)), gate_msgs: i % 2 == 0, gate_replies: i % 3 == 1, fail_rpc: fail, injections, skip_schedule: vec![], max_steps: 60_000, fail_outputs: i % 7 == 3, alt_policies: vec![] };
+        let sc = Scenario { policies: pols, concurrency, strategy: Strategy::Random(seed ^ (i as u64).wrapping_mul(0x9e3779b97f4a7c15)), gate_msgs: i % 2 == 0, gate_replies: i % 3 == 1, fail_rpc: fail, injections, skip_schedule: vec![], max_steps: 60_000, fail_outputs: i % 7 == 3, alt_policies: vec![], hold_msgs_of_after_cancel: None };
         v.push(Case { prop: "C17", key: format!("batch{batch} conc{concurrency} fail={} cancel={} dest-unreachable={}", fail.map(|(k, _)| format!("{k:?}")).unwrap_or("none".into()), i % 5 == 4, i % 7 == 3), sc, progs: ps, inputs, out_masks: masks, leaders, mismatch: None, mt: None });
     }
     // the two single-computation shapes named in the property, for every failing RPC kind and output choice
